@@ -202,7 +202,7 @@ func c18Build(p *C18Plan) (stream []byte, decode func(r io.Reader) string, err e
 		}
 	case "commit":
 		c := &objects.Commit{Table: c18RandBytes(r, 16), AuthorName: c18RandStr(r, sz(0)%300), AuthorEmail: c18RandStr(r, sz(1)%300),
-			Message: c18RandStr(r, sz(2)), Time: time.Unix(int64(r.Intn(2000000000)), 0).In(time.FixedZone("", (r.Intn(27)-13)*3600))}
+			Message: c18RandStr(r, sz(2)%65536), Time: time.Unix(int64(r.Intn(2000000000)), 0).In(time.FixedZone("", (r.Intn(27)-13)*3600))}
 		np := len(p.Sizes) % 4
 		for i := 0; i < np; i++ {
 			c.Parents = append(c.Parents, c18RandBytes(r, 16))
